@@ -76,7 +76,7 @@ class InstanceReport:
             self.inconclusive.append(f"path budget {max_paths} exhausted before all paths were visited")
 
     # ---- obligations
-    def prove(self, ctx, label, negated, witness=None, timeout_ms=None, key=None, real=False, samplers=None, nlsat_first=False):
+    def prove(self, ctx, label, negated, witness=None, timeout_ms=None, key=None, real=False, samplers=None, nlsat_first=False, shape=None):
         """negated: z3 Bool (or list, OR-ed) whose unsatisfiability under the path condition is the
         obligation.  witness(model) -> replay spec (dict) or None.  Returns 'unsat'|'sat'|'unknown'."""
         if isinstance(negated, (list, tuple)):
@@ -102,6 +102,15 @@ class InstanceReport:
             return "unsat"
         if r == z3.sat:
             spec = None
+            if shape:
+                # witness shaping: prefer a model whose inputs are exactly representable (dyadic) so that a boundary
+                # equality found by the solver survives the conversion to floats
+                t1 = time.time()
+                r3, m3 = ctx.model(negated, *shape)
+                self.solver_ms += (time.time() - t1) * 1000
+                if r3 == z3.sat:
+                    m = m3
+                    real = False
             if witness is not None:
                 try:
                     env = None
